@@ -126,6 +126,26 @@ def login (s : GS) (o : AuthOutcome) : GS × Nat × Bool :=
     else if noLogin then (s, 200, true)           -- token issued, session NOT authenticated
     else ({ s with uid := uid, lvl := lvl }, 200, true)
 
+/-- Session.login + onLogin with credential validators (session.go:968-982, 1044-1094): `missing` says that the account's level
+requires validated credentials, the authenticator's record does not carry the "validated" feature and the account has no
+validated credential of a required kind.  Such a login is answered 300 with the list of what is missing and a token which does
+NOT carry the feature either - presenting it later goes through the same check again.  Returns the new state, the reply code,
+whether a token is issued and whether that token carries the "validated" feature. -/
+def loginV (s : GS) (o : AuthOutcome) (missing : Bool) : GS × Nat × Bool × Bool :=
+  if s.uid ≠ "" then (s, 409, false, false)
+  else match o with
+  | .unknownScheme => (s, 401, false, false)
+  | .error code => (s, code, false, false)
+  | .ok uid lvl stateOk noLogin challenge =>
+    if !stateOk then (s, 403, false, false)
+    else if challenge then (s, 300, false, false)
+    else if missing then (s, 300, true, false)
+    else if noLogin then (s, 200, true, true)
+    else ({ s with uid := uid, lvl := lvl }, 200, true, true)
+
+/-- is something missing (session.go:969-976): only when the record is not marked validated and the level has validators -/
+def credMissing (validatedFeature required hasValidatedCred : Bool) : Bool := !validatedFeature && required && !hasValidatedCred
+
 /-- the part of {acc} that belongs to the gate: temporary authentication parameters while already logged in, or with an
 unknown scheme, are refused before anything else happens -/
 def accTmp (s : GS) (knownScheme : Bool) : Option Nat :=
